@@ -58,6 +58,7 @@ type NativeCase struct {
 	Vals    map[string]string `json:"vals"`
 	Choices map[string]int    `json:"choices"`
 	Bounds  map[string]int    `json:"bounds"`
+	Sched   []interp.SchedEvent `json:"sched,omitempty"`
 }
 
 type ViolationReport struct {
@@ -65,6 +66,7 @@ type ViolationReport struct {
 	Case       NativeCase
 	Native     *NativeOut
 	Reproduced bool
+	Forced     bool // reproduced natively only with the recorded schedule forced
 	ReplayPath string
 }
 
@@ -273,6 +275,27 @@ func RunHarness(h *Harness, opt *Options) (*Result, error) {
 							}
 						}
 					}
+					if !vr.Reproduced && len(v.Sched) > 0 {
+						// the window is too narrow for the free-running scheduler: force the recorded schedule
+						fc := vr.Case
+						fc.Sched = v.Sched
+						if outs3, err := NativeReplay(opt, h.Pkg, instrumentedOverlay(opt.Repo, l.ov), []NativeCase{fc, fc, fc}); err == nil {
+							for _, o3 := range outs3 {
+								for _, f := range o3.Fails {
+									if labelOf(f) == v.Label {
+										vr.Reproduced = true
+										vr.Forced = true
+										vr.Case = fc
+									}
+								}
+								if !vr.Reproduced {
+									vr.Native = &NativeOut{Outcome: o3.Outcome, Fails: o3.Fails, Obs: o3.Obs, Panic: o3.Panic}
+								}
+							}
+						} else {
+							vr.Native = &NativeOut{Outcome: "forced-replay-error", Panic: err.Error()}
+						}
+					}
 				} else if strings.HasPrefix(v.Label, "write-to-frozen:") || v.Label == "deadlock" || strings.HasPrefix(v.Label, "fault:") {
 					// engine-only monitors: not observable natively; reproduced if the native run follows the same path without diverging
 					vr.Reproduced = o.Outcome == "ok" || o.Outcome == "fail"
@@ -369,6 +392,14 @@ func nativeReplay(opt *Options, pkgRel string, ov map[string][]byte, cases []Nat
 	defer os.RemoveAll(tmp)
 	repl := map[string]string{}
 	i := 0
+	vs := filepath.Join(opt.Repo, "internal", "zzvsched", "vsched.go")
+	if _, ok := ov[vs]; !ok {
+		ov2 := map[string][]byte{vs: []byte(vschedSrc)}
+		for k, v := range ov {
+			ov2[k] = v
+		}
+		ov = ov2
+	}
 	for path, content := range ov {
 		f := filepath.Join(tmp, fmt.Sprintf("ov%d_%s", i, filepath.Base(path)))
 		i++
